@@ -8,7 +8,7 @@
 (* select {which, api, all, at, r, why}  one call per k; -1 = Err/None; why = class of *)
 (*                                       the refusal messages                         *)
 (* select_batch {which, api, at, ok, r}  one call for all k of at                     *)
-(* get {api, r}  counts {len, ones, zeros}  popcounts {api, r}                        *)
+(* get {api, all, at, r}  counts {len, ones, zeros}  popcounts {api, r}                        *)
 (* wrank {api, w, r}  wselect {which, api, w, r}   questions on one 64-bit word       *)
 (* build {ok}   panic {in, msg}  (no action: a panic is rejected)                     *)
 EXTENDS RankSelect, TraceIO, Known_RankSelect
@@ -29,7 +29,8 @@ Step(e) ==
     \/ e.op = "select" /\ ~e.all /\ SelectAt(e.which, e.at, e.r)
     \/ e.op = "select" /\ SelectNotOffered(e.which, e.r, e.why)
     \/ e.op = "select_batch" /\ SelectBatch(e.which, e.at, e.ok, e.r)
-    \/ e.op = "get"    /\ GetAll(e.r)
+    \/ e.op = "get"    /\ e.all  /\ GetAll(e.r)
+    \/ e.op = "get"    /\ ~e.all /\ GetAt(e.at, e.r)
     \/ e.op = "counts" /\ Counts(e.len, e.ones, e.zeros)
     \/ e.op = "wrank"  /\ WordRank(e.w, e.r)
     \/ e.op = "wselect" /\ WordSelect(e.which, e.w, e.r)
